@@ -467,6 +467,10 @@ impl<C: ContentAddrStore> SealedState<C> {
         new.height += BlockHeight(1);
         new.stakes.unlock_old((new.height / STAKE_EPOCH).0);
         new.transactions = Default::default();
+        // Tips are local to a block. Carrying the uncollected tips of a block sealed without a proposer action into the
+        // next block made a state rebuilt with `from_block` (which cannot know them: the header does not commit to tips)
+        // diverge from the original at the next proposer reward.
+        new.tips = 0.into();
 
         // TIP-906 transition
         if new.tip_906() && !self.0.tip_906() {
